@@ -35,8 +35,16 @@ def run(tier, seed):
     out = vlib.replay(ENGINE, scen)
     vlib.absorb_replay(v, out, ENGINE, scen)
     # the same cover on the FILE ref store, for the operations it implements (RefsGen!FsStep decides which)
-    fout = vlib.replay(ENGINE, scen, env={"REFS_STORE": "fs"})
-    vlib.absorb_replay(v, fout, ENGINE, scen, extra={"store": "fs"})
+    fscen = scen
+    if tier != "quick":
+        # (2 million transitions: every other one, rotated by the seed, on the slower file store)
+        fscen = scen + ".fs"
+        with open(scen) as f, open(fscen, "w") as g:
+            for i, line in enumerate(f):
+                if i % 2 == seed % 2:
+                    g.write(line)
+    fout = vlib.replay(ENGINE, fscen, env={"REFS_STORE": "fs"})
+    vlib.absorb_replay(v, fout, ENGINE, fscen, extra={"store": "fs"})
     if not any(k != "-" for k in fout.classes):
         raise vlib.Inconclusive("no scenario was applicable to the file ref store (vacuous)")
     # (C): real-scale traces
